@@ -9,6 +9,7 @@ import (
 	"math/rand"
 	"strings"
 	"testing"
+	"testing/synctest"
 )
 
 func c20GenCfg(r *rand.Rand) c20Raw {
@@ -265,6 +266,13 @@ func c20RunScript(t *testing.T, cfgs []c20Raw, ops []c20Op) c20Case {
 		names[i] = fmt.Sprintf("c%d", i)
 	}
 	e := c20NewEnv(t, cfgs, names)
+	defer e.close()
+	for _, o := range ops {
+		if o.Kind == "xstreams" {
+			e.startRetention()
+			break
+		}
+	}
 	c := c20Case{Cfgs: cfgs}
 	emit := func(o c20Op, ob c20Obs) { c.Ops = append(c.Ops, o); c.Obs = append(c.Obs, ob) }
 	for _, o := range ops {
@@ -292,6 +300,7 @@ func c20Corpus() []struct {
 	rst := func(ch int, lim int) c20Op { return c20Op{Kind: "rstream", Ch: ch, Limit: lim, Tags: -1} }
 	adv := func(n int64) c20Op { return c20Op{Kind: "advance", N: n, Tags: -1} }
 	sweep := c20Op{Kind: "sweep", Tags: -1}
+	xs, xc := c20Op{Kind: "xstreams", Tags: -1}, c20Op{Kind: "xchannels", Tags: -1}
 	return []struct {
 		cfgs []c20Raw
 		ops  []c20Op
@@ -353,6 +362,15 @@ func c20Corpus() []struct {
 			with(c20P(1, "a", 4), func(o *c20Op) { o.Score = -1 }), with(c20P(1, "b", 5), func(o *c20Op) { o.Score = 3 }),
 			with(c20P(1, "ab", 6), func(o *c20Op) { o.Score = 2 }),
 			rs(0, -1), rs(1, -1), with(rs(0, 2), func(o *c20Op) { o.Asc = true }), with(rs(1, 2), func(o *c20Op) { o.Asc = true })}},
+		// StreamTTL: entries vanish, offsets and epoch stay; a key-expiry removal appended afterwards is readable
+		{[]c20Raw{{Mode: 2, KeyTTL: 3, Size: 3, STTL: 1, MTTL: 9}}, []c20Op{
+			c20P(0, "a", 1), c20P(0, "b", 2), adv(1), xs, xc, rst(0, -1), rs(0, -1),
+			c20P(0, "ab", 3), rst(0, -1), adv(2), sweep, rst(0, -1), adv(1), xs, xc, rst(0, -1), rs(0, -1)}},
+		// MetaTTL: the channel is forgotten (fresh epoch), idempotency results are not; reads keep it alive
+		{[]c20Raw{{Mode: 2, KeyTTL: 2, Size: 3, STTL: 1, MTTL: 2}}, []c20Op{
+			with(c20P(0, "a", 1), func(o *c20Op) { o.Idem = 1; o.IdemTTL = 9 }), adv(1), rs(0, -1), adv(1), xs, xc, rs(0, -1),
+			adv(2), xs, xc, rs(0, -1), rst(0, -1),
+			with(c20P(0, "a", 2), func(o *c20Op) { o.Idem = 1 }), c20P(0, "a", 3), adv(1), xs, xc, adv(1), sweep, rs(0, -1), rst(0, -1)}},
 		// reads create channels; remove on a missing channel
 		{[]c20Raw{rec, per}, []c20Op{
 			{Kind: "remove", Ch: 1, Key: "a", Tags: -1},
@@ -364,9 +382,10 @@ func c20Corpus() []struct {
 }
 
 func TestVerifC20(t *testing.T) {
-	w := verifOpen(t, "C20")
+	w := verifOpen(t, c20ID())
 	defer w.Close()
 	corpus := c20Corpus()
+	c20EnsureNode(t) // outside any bubble
 	for i := 0; i < w.N; i++ {
 		if !w.Want(i) {
 			continue
@@ -374,19 +393,43 @@ func TestVerifC20(t *testing.T) {
 		r := w.Rand(i)
 		var c c20Case
 		class := "corpus"
+		// every case runs in its own synctest bubble: the fake clock stands still except when the
+		// driver lets the broker's retention sweepers tick
+		synctest.Test(t, func(t *testing.T) {
 		if i < len(corpus) {
 			c = c20RunScript(t, corpus[i].cfgs, corpus[i].ops)
 		} else {
 			nch := 2 + r.Intn(2)
 			cfgs := make([]c20Raw, nch)
 			names := make([]string, nch+1)
+			retention := r.Intn(3) == 0
 			for k := range cfgs {
 				cfgs[k] = c20GenCfg(r)
+				if retention && cfgs[k].Mode >= 2 && cfgs[k].Mode <= 3 && r.Intn(4) != 0 {
+					// short stream / metadata lifetimes so that they actually elapse
+					cfgs[k].STTL = int64(r.Intn(4))
+					cfgs[k].MTTL = 0
+					if cfgs[k].Mode == 2 && cfgs[k].KeyTTL > 0 && r.Intn(2) == 0 {
+						st := cfgs[k].STTL
+						if st == 0 {
+							st = 1
+						}
+						m := cfgs[k].KeyTTL
+						if st > m {
+							m = st
+						}
+						cfgs[k].MTTL = m + int64(r.Intn(3))
+					}
+				}
 			}
 			for k := range names {
 				names[k] = fmt.Sprintf("c%d", k)
 			}
 			e := c20NewEnv(t, cfgs, names)
+			defer e.close()
+			if retention {
+				e.startRetention()
+			}
 			g := &c20Gen{r: r, e: e, nch: nch, cursors: map[int]string{}, verHeavy: r.Intn(4) == 0, vepHeavy: r.Intn(5) == 0}
 			c = c20Case{Cfgs: cfgs}
 			emit := func(o c20Op, ob c20Obs) { c.Ops = append(c.Ops, o); c.Obs = append(c.Obs, ob) }
@@ -401,6 +444,18 @@ func TestVerifC20(t *testing.T) {
 			n := 4 + r.Intn(22)
 			for k := 0; k < n; k++ {
 				o := g.op()
+				if retention && r.Intn(5) == 0 {
+					// time passes, then the StreamTTL and MetaTTL sweepers tick
+					if r.Intn(3) != 0 {
+						a := c20Op{Kind: "advance", N: int64(1 + r.Intn(6)), Tags: -1}
+						emit(a, e.exec(a))
+					}
+					x := c20Op{Kind: "xstreams", Tags: -1}
+					emit(x, e.exec(x))
+					y := c20Op{Kind: "xchannels", Tags: -1}
+					emit(y, e.exec(y))
+					c20Count(w, "retention_ticks", 1)
+				}
 				if o.Kind == "publish" {
 					e.avoidTie(o.Ch, o.Key, emit)
 				}
@@ -411,7 +466,11 @@ func TestVerifC20(t *testing.T) {
 				emit(o, ob)
 			}
 			class = fmt.Sprintf("modes%d%d", cfgs[0].Mode, cfgs[1].Mode)
+			if retention {
+				class += "/ret"
+			}
 		}
+		})
 		var supp, unsupStream, reads bool
 		for k, o := range c.Ops {
 			ob := c.Obs[k]
@@ -440,3 +499,5 @@ func TestVerifC20(t *testing.T) {
 		w.Case(i, c20CaseTerm("mkCase", c), c, class, supp && unsupStream && reads)
 	}
 }
+
+func c20ID() string { return "C20" }
